@@ -123,6 +123,83 @@ def jsonText : Json → Str
   | .str s => s
   | _ => []
 
+/-! ## `Project.find` among the objects loaded from external projects
+
+`Project.find(name, entity, child_name, child_entity)` for a name B does not define itself (B's own entities
+come first, collection by collection: `projectFind`, External.lean): the objects `dict2obj` appended, list by
+list in LINK_TYPES order, without the classes `Project.find` never returns by their bare name
+(`Gen.findSkips`, probed), then the child. -/
+
+def xCls : XObj → Str
+  | .node cls _ _ _ _ _ => cls
+  | .text _ => []
+
+mutual
+/-- the objects in the order `dict2obj` appends them (an object before its children, children in
+    ATTRIBUTES order) - `entriesOf`, with the objects themselves -/
+def nodesOf : XObj → List XObj
+  | .text _ => []
+  | .node cls name url parent pt attrs => .node cls name url parent pt attrs :: nodesAttrs attrs
+def nodesAttrs : List (Str × XAttr) → List XObj
+  | [] => []
+  | (_, a) :: r => nodesAttr a ++ nodesAttrs r
+def nodesAttr : XAttr → List XObj
+  | .list xs => nodesList xs
+  | .dict kvs => nodesDict kvs
+  | .scalar _ => []
+def nodesList : List XObj → List XObj
+  | [] => []
+  | o :: r => nodesOf o ++ nodesList r
+def nodesDict : List (Str × XObj) → List XObj
+  | [] => []
+  | (_, o) :: r => nodesOf o ++ nodesDict r
+end
+
+/-- the project list an object of class `cls` is appended to -/
+def projListOf (cls : Str) : Str := ((Gen.entities.lookup cls).map (·.1)).getD []
+
+/-- `getattr(project, c)` as far as it holds imported objects -/
+def loadedObjs (c : Str) (os : List XObj) : List XObj := (nodesList os).filter (fun o => projListOf (xCls o) == c)
+
+/-- `_find_in_list(x for x in collection if not isinstance(x, <skipped classes>), name)` -/
+def xFindTop (skip : List Str) (name : Str) : List XObj → Except CErr (Option XObj)
+  | [] => .ok none
+  | .text _ :: r => xFindTop skip name r
+  | .node cls n url parent pt attrs :: r =>
+    if skip.contains cls then xFindTop skip name r else
+    match n with
+    | .str s => if lower name == lower s then .ok (some (.node cls n url parent pt attrs)) else xFindTop skip name r
+    | _ => .error .attrError
+
+def findLoadedWith (skip : List Str) (os : List XObj) (name : Str) : Option Str → Except CErr (Option XObj)
+  | some kind =>
+    match Gen.linkTypes.lookup (lower kind) with
+    | none => .error .valueError
+    | some c => xFindTop skip name (loadedObjs c os)
+  | none => xFindTop skip name ((Gen.linkTypes.map (fun kv => loadedObjs kv.2 os)).flatten)
+
+/-- the search for `name` among the imported objects, as the code is -/
+def findLoaded (os : List XObj) (name : Str) (kind : Option Str) : Except CErr (Option XObj) :=
+  findLoadedWith Gen.findSkips os name kind
+
+/-- `Project.find(name, kind, child, childKind)` for a name B does not define -/
+def xProjectFind (os : List XObj) (name : Str) (kind : Option Str) (child childKind : Option Str) :
+    Except CErr (Option XObj) :=
+  match findLoaded os name kind with
+  | .error e => .error e
+  | .ok top => viaParent top child childKind
+
+/-- `convert_link` without a context: the reference, or - when only the child is missing - its parent -/
+def xConvertLink (os : List XObj) (name : Str) (kind : Option Str) (child childKind : Option Str) :
+    Except CErr (Option XObj) :=
+  match xProjectFind os name kind child childKind with
+  | .error e => .error e
+  | .ok (some o) => .ok (some o)
+  | .ok none =>
+    match child with
+    | some _ => findLoaded os name kind
+    | none => .ok none
+
 /-! ## The description after `dict2obj` has run on it
 
 `extDict["external_url"] = extDict["external_url"].split("/", 1)[-1]` is stored back into the dictionary.
